@@ -19,6 +19,13 @@
 (***************************************************************************)
 EXTENDS Integers, Sequences, FiniteSets, TLC, SequencesExt, FiniteSetsExt
 
+(* TLC compares records field by field in the order of its internal string table, which is
+   the order in which the identifiers were first seen by the parser - the ROOT module is
+   lexed first.  Every root module therefore begins with  FieldOrder == [k |-> 0, v |-> 0]
+   so that the tag k is compared before the payload v; the assumption below fails loudly
+   (instead of letting a comparison go wrong silently) if a root module forgets it. *)
+ASSUME FieldOrderGuard == [k |-> "A", v |-> <<1>>] # [k |-> "O", v |-> [a |-> 1]]
+
 Num(i)  == [k |-> "n", v |-> i]
 Str(s)  == [k |-> "s", v |-> s]
 Bool(b) == [k |-> "b", v |-> b]
